@@ -38,7 +38,7 @@ def copyUp (c : Cow) (name : Str) : Cow × Option FsErr :=
     mtime). -/
 def copyUpFlags (c : Cow) (name : Str) (flag perm : Nat) : Cow × Option FsErr :=
   let k := keyOfStr name
-  let rb := c.s.b.openFile k (flag - (flag &&& O_APPEND)) perm
+  let rb := c.s.b.openFile k (flag ^^^ (flag &&& O_APPEND)) perm
   match rb.2 with
   | .handle h _ =>
     let b1 := rb.1
